@@ -263,6 +263,50 @@ def single_op_programs(rng):
     return progs
 
 
+def reshape_copy_inplace_fails(case):
+    """a traced value whose coefficient array is a NON-contiguous block (a column block of a larger array) is reshaped -- NumPy then
+    returns a copy -- and the reshaped value is updated in place: the reverse sweep is the adjoint of THAT program (the direct run
+    leaves the block untouched), y = sum(2 v) + sum(A) = 3 sum(A)"""
+    X = np.array(case['X'])
+    D, P = X.shape[:2]
+    cg = algopy.CGraph()
+    fA = algopy.Function(UTPM(X.copy())[:, :2])
+    if fA.x.data.flags['C_CONTIGUOUS']:
+        return None
+    v = algopy.reshape(fA, (4,))
+    if case['form'] == 'imul':
+        v *= 2.0
+        fy = algopy.sum(v) + algopy.sum(fA)
+        want = 3.0
+    else:
+        v[0] = 5.0
+        fy = algopy.sum(v * v) + algopy.sum(fA)
+        want = None
+    cg.trace_off()
+    cg.independentFunctionList = [fA]
+    cg.dependentFunctionList = [fy]
+    yb = np.zeros((D, P))
+    yb[0] = 1.0
+    try:
+        cg.pullback([UTPM(yb)])
+    except Exception as ex:
+        return 'reshape-copy-inplace-exception: %s' % (type(ex).__name__ + ':' + str(ex)[:80])
+    xb = np.array(fA.xbar.data)
+    a = np.array(fA.x.data)
+    if want is not None:
+        ref = np.zeros_like(xb)
+        ref[0] = want
+    else:
+        # d/dA [ sum_{k>=1} A_flat[k]^2 + 25 + sum(A) ]: xbar(t) = ybar * (2 A(t) masked + 1)
+        m = np.ones((2, 2)); m[0, 0] = 0.0
+        ref = 2.0 * a * m
+        ref[0] += 1.0
+    if xb.shape != ref.shape or not np.allclose(xb, ref, rtol=1e-12, atol=1e-13):
+        return ('reshape-copy-inplace: the adjoint of a non-contiguous value that is reshaped (a copy) and then updated in place (%s) is %s at order 0, '
+                'the program gives %s') % (case['form'], xb[0].ravel().tolist(), ref[0].ravel().tolist())
+    return None
+
+
 # --------------------------------------------------------------------------------------
 # correspondence: series-level pullback kernels, driven through the tracer, vs the Lean model
 import math
@@ -559,6 +603,8 @@ def jacobian_utpm_fails(case):
 
 
 def replay_case(ctx, case):
+    if case.get('op') == 'reshape-copy-inplace':
+        return reshape_copy_inplace_fails(case)
     if case.get('op') == 'jacobian-utpm':
         return jacobian_utpm_fails(case)
     if case.get('op') == 'svd-repeated':
@@ -580,6 +626,13 @@ def replay_case(ctx, case):
 
 def run(ctx):
     rng = ctx.rng
+    for form_ in ('imul', 'setitem'):
+        case = {'op': 'reshape-copy-inplace', 'form': form_, 'D': 2, 'P': 1, 'X': rand_coeffs(rng, (2, 1, 2, 4), -2, 2) + 0.125}
+        ctx.evaluations += 1
+        ctx.count('reshape-copy-then-inplace')
+        f_ = reshape_copy_inplace_fails(case)
+        if f_:
+            ctx.report(case, 'failure', f_)
 
     def do(case, kind):
         ctx.evaluations += 1
